@@ -270,7 +270,7 @@ def run_expr(ctx, stats):
             vlib.tlc(ctx, "AspExpr", "MC_AspExpr.cfg", workers=8)
             cases = vlib.tlc(ctx, "AspExpr", "GEN_AspExpr_thorough.cfg", workers=8, timeout=3000).cases
             # tlc -simulate evaluates the invariant on every successor of every visited state: ~700 cases per trace
-            cases += vlib.tlc(ctx, "AspExpr", "SIM_AspExpr.cfg", workers=1, simulate=60, depth=5, seed=ctx.seed,
+            cases += vlib.tlc(ctx, "AspExpr", "SIM_AspExpr.cfg", workers=1, simulate=40, depth=5, seed=ctx.seed,
                               timeout=1500).cases
     seen, uniq = set(), []
     for c in cases:
@@ -307,13 +307,15 @@ def run_expr(ctx, stats):
             continue
         if "err" in o:
             stats["expr_rejected"] += 1
-            if c["algo"]["k"] != "err":
+            if c["algo"]["k"] not in ("err", "gar"):
                 stats["drift"] += 1
             continue
         stats["expr_evaluated"] += 1
         real = o["values"]["r"]
         if same(real, c["expect"]["v"]):
-            if c["algo"]["k"] == "err" or not same(real, c["algo"]["v"]):
+            if c["algo"]["k"] == "gar":
+                pass        # the model only knows that asp divided by zero somewhere and went on with an arbitrary value
+            elif c["algo"]["k"] == "err" or not same(real, c["algo"]["v"]):
                 stats["drift"] += 1
                 if stats["drift"] <= 3:
                     ctx.drift("expr `%s`: code agrees with Python, algorithm model predicted %s" % (c["src"], c["algo"]))
@@ -321,7 +323,7 @@ def run_expr(ctx, stats):
         ctx.disagreements_checked += 1
         detail = dict(part="expr", case=dict(toks=c["toks"], expect=c["expect"], algo=c["algo"], cls=c["cls"]),
                       src="r = " + c["src"], cpython=c["expect"]["v"], asp=real)
-        if c["algo"]["k"] != "err" and same(real, c["algo"]["v"]) and c["cls"] in EXPR_SIG:
+        if c["cls"] in EXPR_SIG and (c["algo"]["k"] == "gar" or (c["algo"]["k"] != "err" and same(real, c["algo"]["v"]))):
             ctx.violation(EXPR_SIG[c["cls"]], detail)
         else:
             ctx.violation("C16 expr unpredicted-value cls=%s" % c["cls"], detail)
@@ -379,7 +381,7 @@ def run_heap(ctx, stats):
         # tlc -simulate prints every successor of every visited state (prefix-closed): ~100-200 cases per step
         # quick: all programs of 2 statements + all of the shape literal; anything; mutation (aliasing probes)
         by, note = gen_heap(ctx, "h", ["GEN_AspHeap_2.cfg", "GEN_AspHeap_3m.cfg"], ["GEN_AspHeap_2.cfg", "GEN_AspHeap_3.cfg"],
-                            "SIM_AspHeap.cfg", 3, 150, 7)
+                            "SIM_AspHeap.cfg", 3, 40, 7)
     M = Menus(note)
     cases = [c for c in by.values() if c["prog"]]
     for i, c in enumerate(cases):
